@@ -39,7 +39,7 @@ CHECKS.update({
 CHECKS.update({
  "C05": ("runtime monitor: reference resolver (R-val) over generated multi-file projects with adversarially similar names; kind of every type node + exactly-one 'unknown type' Error",
          "Held on every type reference observed (~65k references in 15k projects quick; 250k projects thorough) across all resolution paths (exact / simple-name / partially qualified import, unknown import, forward declaration, built-in simple / qualified / imported, unresolved) x depth 0-4 x placement; per-path counts in the evidence.",
-         "Trusted: R-val's transcription of the scoping rules in the statement; lenient where the statement is silent (several matching imports / several files under one key: any candidate). Hook H1 for the parse-stage trees.",
+         "Trusted: R-val's transcription of the scoping rules in the statement; lenient where the statement is silent (several matching imports / several files under one key: any candidate). Hook H1 for the parse-stage trees. Half of the projects reach their final state through a hostile pre-history (decoy files, replacement, removal, interleaved validate calls), so stale caches inside the parser are observable here too.",
          "DESIGN.md §3 C05"),
  "C06": ("runtime monitor: reference pass for import / forward-declaration diagnostics (class, severity, range, related range) compared as multisets per file",
          "Held on ~180k import statements and ~80k forward declarations per quick run in every class (duplicate, unresolved, resolvable-unused, used, used only deep, used via partial qualification, built-in used/unused; declaration conflict / repeated / unused / used).",
@@ -135,7 +135,7 @@ def main():
         }],
         "checks": checks,
         "not_applicable": na,
-        "notes": "Technique family: runtime monitoring and sanitizers. Exit codes of ./check: 0 held on what was observed, 1 violation (VIOLATION line), 2 build/harness error or inconclusive run. Known findings: /verif/known_findings.json (read-only at run time).",
+        "notes": "Technique family: runtime monitoring and sanitizers. All project-based checks (C05-C10, C13, C17, C19) drive the parser through hostile pre-histories for half of their projects; generators deliberately include keyword-like and API-like identifiers in any case, repeated names, counts/lengths/depths around 16/32/64/128/256, boundary numbers, BOM and Unicode whitespace, recovered syntax errors inside project files (DESIGN.md 13-14). Exit codes of ./check: 0 held on what was observed, 1 violation (VIOLATION line), 2 build/harness error or inconclusive run. Known findings: /verif/known_findings.json (read-only at run time).",
     }
     json.dump(m, open("/verif/MANIFEST.json", "w"), indent=1)
     print(f"wrote MANIFEST.json: {len(checks)} checks, {len(na)} not_applicable")
